@@ -32,6 +32,8 @@ fn main() {
         "xpy" => xpy::run(rest),
         "sym-check" => families::sym(rest),
         "mass-check" => families::mass(rest),
+        "accuracy-check" => families::accuracy(rest),
+        "stiff-check" => families::stiff(rest),
         "event-check" => monitors::events(rest),
         "teval-check" => monitors::teval(rest),
         "interval-check" => runs::interval(rest),
